@@ -1,8 +1,13 @@
 #ifndef VSTL_STRING_H
 #define VSTL_STRING_H
 #include "vstl_base.h"
+#ifdef VSTL_ABSTRACT_CSTR
+size_t __CPROVER_uninterpreted_cstr_len(const char *p);
+inline size_t strlen(const char *s) { __CPROVER_assert(s != 0, "vstl.pre: strlen non-null"); return __CPROVER_uninterpreted_cstr_len(s); }
+#else
+extern "C" size_t strlen(const char *s);
+#endif
 extern "C" {
-size_t strlen(const char *s);
 int strcmp(const char *a, const char *b);
 int strncmp(const char *a, const char *b, size_t n);
 char *strcpy(char *d, const char *s);
